@@ -121,7 +121,7 @@ ALPHA = [0, 1, 15, 16, 63, 64, 127, 128, 0x8f, 0x90, 0xa5, 0xb0, 0xc0, 0xcf, 0xd
 def pyval_cases(rng):
     """Non-integer items: the property allows ValueError or TypeError, and nothing else; an accepted input must
     still be exactly one message (bytes() == input under Python equality)."""
-    items = [1.0, 144.0, 240.0, 247.0, 0.5, float('nan'), float('inf'), 'a', '1', b'\x90', None, True, False, [1], (1,), {},
+    items = [1.0, 0.0, 64.0, 144.0, 240.0, 247.0, 0.5, float('nan'), float('inf'), 'a', '1', b'\x90', None, True, False, [1], (1,), {},
              bytearray(b'\x01'), 2 ** 70, -1, 1j]
     statuses = [0x90, 0x80, 0xc0, 0xe0, 0xf0, 0xf1, 0xf2, 0xf3, 0xf6, 0xf8, 0xf4, 0x10]
     cases = []
@@ -150,8 +150,7 @@ def check_pyval(out):
             continue
         out.count('pyval-accepted')
         try:
-            ok = (m.bytes() == list(case)) and valid_msg(m) or (m.bytes() == list(case) and all(
-                isinstance(x, (int, float)) for x in case))
+            ok = (m.bytes() == list(case)) and valid_msg(m)
         except Exception:  # noqa: BLE001
             ok = False
         if not ok:
